@@ -12,6 +12,10 @@ func runStream(name string, args []string) {
 	switch name {
 	case "cfg":
 		streamCfg(o)
+	case "est":
+		streamEst(o)
+	case "ghost":
+		streamGhost(o)
 	default:
 		fmt.Fprintf(os.Stderr, "unknown stream %q\n", name)
 		os.Exit(2)
